@@ -19,6 +19,17 @@ EXCLUDED_NAMES = {
 EXCLUDED_BRANCHES = {
     ('truncate', 'np.any(S < -1.0e-10)', 'fall'):
         'warning for negative Schmidt values: the property quantifies over non-negative spectra',
+    ('_qr_theta_Y0', 'min_block_increase >= 0', 'fall'):
+        'assert on a precondition (negative min_block_increase is not a documented value): outside the quantifier',
+    ('_qr_theta_Y0', 'expand != 0', 'fall'):
+        'assert on a precondition (expand = 0: no expansion requested, the callers then use the plain SVD path): outside the quantifier',
+    ('_qr_theta_Y0', 'expand is not None', 'jump'):
+        'assert on a precondition (expand = None: the callers then use the plain SVD path): outside the quantifier',
+    ('_qr_theta_Y0', 'for j_new, q_new in enumerate(v_new.charges):', 'jump'):
+        'loop exhaustion is unreachable for theta != 0: every block of the rank-2 Y0 is matched exactly once in sorted '
+        'order and the loop leaves by `break` after the last one (theta = 0 has no relative error)',
+    ('_eig_based_svd', 'A.rank == 2', 'fall'):
+        'assert on a precondition (the decompositions are defined for matrices): outside the quantifier',
     ('_eig_based_svd', 'need_U and need_Vd', 'fall'):
         'raises NotImplementedError by documentation ("Does not (yet) support computing both U and Vd"); exercised as an '
         'error-class case in stream eig-svd when reached',
